@@ -23,7 +23,7 @@ RULE = ("(a) scaled (metamorphic): NetSpecs of ordinary nodes on a decimal grid 
         "resample episodes at pre-emptive nodes add up exactly (no tolerance).")
 ASSUMPTIONS = ["float arithmetic on integers below 2^53 is exact (the scaled reference run)",
                "observation horizons are multiples of 0.25 so that they are represented exactly in both runs"]
-TECHNIQUE = 'metamorphic property-based testing: exact run on a decimal grid vs float run of the integer-scaled spec; differential exact vs float run on continuous inputs'
+TECHNIQUE = 'metamorphic property-based testing: exact run on a decimal grid vs float run of the integer-scaled spec; rational-arithmetic audit of dates against logged samples (also after a low-precision run in the same process and with near-ties); differential exact vs float run on continuous inputs'
 WALL = {"quick": 150, "thorough": 540}
 
 ALLOWED = ["schedule", "sched_preempt", "capacity", "priorities", "prio_preempt", "reneging", "jockeying", "batching", "cc_after", "cc_waiting",
